@@ -251,9 +251,29 @@ func floatDivMod(a, b Float) (Float, Float, error) {
 	if b == 0 {
 		return 0, 0, floatDivisionByZero
 	}
-	q := Float(math.Floor(float64(a / b)))
-	r := a - q*b
-	return q, Float(r), nil
+	// As CPython's float_divmod: start from the exact remainder of fmod (which has the sign of a) and move
+	// it to the side of b; deriving the remainder from floor(a/b) loses it when a/b rounds or underflows
+	// (-5e-324 % 2.0 came out as -5e-324 instead of 2.0).
+	mod := Float(math.Mod(float64(a), float64(b)))
+	div := (a - mod) / b
+	if mod != 0 {
+		if (b < 0) != (mod < 0) {
+			mod += b
+			div -= 1.0
+		}
+	} else {
+		mod = Float(math.Copysign(0, float64(b)))
+	}
+	var floordiv Float
+	if div != 0 {
+		floordiv = Float(math.Floor(float64(div)))
+		if div-floordiv > 0.5 {
+			floordiv += 1.0
+		}
+	} else {
+		floordiv = Float(math.Copysign(0, float64(a/b)))
+	}
+	return floordiv, mod, nil
 }
 
 func (a Float) M__mod__(other Object) (Object, error) {
